@@ -1,7 +1,8 @@
 """C17 — cached computations are indistinguishable from fresh ones.
 
-Five sub-checks, each a correspondence (real code vs. Model/C17.v evaluated by
-vm_compute) plus a model-independent oracle ("equals a fresh computation"):
+Sub-checks, each (unless marked oracle only) a correspondence (real code vs.
+Model/C17.v evaluated by vm_compute) plus a model-independent oracle ("equals
+a fresh computation"):
 
   cache     dclab.cached.Cache objects (kde_gauss / kde_histogram /
             kde_multivariate / downsample_grid and three probe functions
@@ -9,8 +10,14 @@ vm_compute) plus a model-independent oracle ("equals a fresh computation"):
             over a pool of adversarially similar arguments, interleaved with
             in-place modification of returned objects; observed per call:
             equal-to-fresh status and whether the undecorated function ran.
+            Also compared: the bytes the implementation feeds to md5 with
+            the model's key_new (the encoding the injectivity theorem is about).
   public    the public wrappers (kde_methods.kde_*, downsample_grid) with
             NaN/inf, 2D and strided inputs: oracle only.
+  dsapi     RTDC_Dict datasets: get_kde_scatter / get_kde_contour /
+            get_downsampled_scatter histories with filter changes and in-place
+            modification of results, once with warm caches and once with the
+            cache cleared before every call: oracle only.
   hashfile  util.hashfile over real files that are rewritten / deleted.
   lcl       features.contour.LazyContourList over recording mask containers.
   obj       per-object array caches: RTDC_HDF5 scalar features, hierarchy
@@ -243,6 +250,50 @@ class Memo:
             finally:
                 _PROBE_CALLS[0] = n
         return self.plain(*a, **k)
+
+
+class Md5Shim:
+    """Stands in for the module `hashlib` inside dclab.cached: records the
+    bytes fed to md5 for one key computation."""
+
+    def __init__(self, real):
+        self.real = real
+        self.fed = None
+
+    def __getattr__(self, name):
+        return getattr(self.real, name)
+
+    def md5(self, *a, **k):
+        shim = self
+        h = self.real.md5(*a, **k)
+        shim.fed = bytearray()
+
+        class H:
+            def update(self, b):
+                shim.fed += bytes(memoryview(b).cast("B")) if not isinstance(
+                    b, (bytes, bytearray)) else b
+                h.update(b)
+
+            def hexdigest(self):
+                return h.hexdigest()
+
+            def digest(self):
+                return h.digest()
+        return H()
+
+    @staticmethod
+    def install(cached):
+        real = getattr(cached, "hashlib", None)
+        if real is None or not hasattr(real, "md5") or isinstance(real, Md5Shim):
+            return None
+        shim = Md5Shim(real)
+        cached.hashlib = shim
+        return shim
+
+    @staticmethod
+    def uninstall(cached, shim):
+        if shim is not None:
+            cached.hashlib = shim.real
 
 
 _PROBE_OBJS = {}
@@ -482,6 +533,13 @@ def gen_cache_case(rng, thorough=False, big=False):
             sg = sigs[min(max(k, 0), len(sigs) - 1)]
         else:
             sg = rng.choice(sigs)
+        if rng.random() < 0.12:
+            # the same arguments to another memoised function
+            fam = (["probe_a", "probe_b", "probe_c"] if sg[0].startswith("probe")
+                   else ["kde_gauss", "kde_histogram", "kde_multivariate"]
+                   if sg[0].startswith("kde") else None)
+            if fam:
+                sg = [rng.choice(fam), sg[1], sg[2]]
         key = json.dumps(sg, sort_keys=True)
         if key not in keys:
             keys.add(key)
@@ -550,6 +608,8 @@ def run_cache_case(case, memos=None):
     notes = []
     hits = misses = 0
     old_max = cached.MAX_SIZE
+    keyrec = []          # (rendered single-call case, bytes fed to md5)
+    shim = Md5Shim.install(cached)
     try:
         cached.Cache.clear_cache()
         cached.MAX_SIZE = case["cap"]
@@ -585,7 +645,12 @@ def run_cache_case(case, memos=None):
                 notes.append("op %d: equal signature, different fresh result" % i)
             # the memoised call
             n0 = m.ncalls()
+            if shim is not None:
+                shim.fed = None
             okc, vc = safe_call(m.obj, *pos2, **kw2)
+            if (shim is not None and shim.fed is not None and len(keyrec) < 3
+                    and skey not in [k[0] for k in keyrec] and i % 7 == 0):
+                keyrec.append((skey, "mkop 0 (%s) 0" % sig, list(shim.fed)))
             hit = 1 if m.ncalls() == n0 else 0
             hits += hit
             misses += 1 - hit
@@ -617,12 +682,16 @@ def run_cache_case(case, memos=None):
     finally:
         cached.MAX_SIZE = old_max
         cached.Cache.clear_cache()
+        Md5Shim.uninstall(cached, shim)
         if own:
             for m in memos.values():
                 m.restore()
     render = "mkcase 1 1 %d %s %s" % (case["cap"], common.clist(pool.rendered),
                                       common.clist(rops))
-    return dict(flat=flat, render=render, fail=fail,
+    keys = [("mkcase 1 1 1 %s [%s]" % (common.clist(pool.rendered), r), fed)
+            for _, r, fed in keyrec]
+    return dict(flat=flat, render=render, fail=fail, keys=keys,
+                keyshim=shim is not None,
                 nontrivial=hits > 0 and misses > 0, notes=notes,
                 hits=hits, misses=misses, distinct=len(sig_fv))
 
@@ -1442,6 +1511,11 @@ def run(run):
     import multiprocessing
     import time
     t0 = time.time()
+    # one BLAS/OpenMP thread per worker: the arrays are tiny and the workers
+    # already occupy the cores
+    for var in ("OMP_NUM_THREADS", "OPENBLAS_NUM_THREADS", "MKL_NUM_THREADS",
+                "NUMEXPR_NUM_THREADS"):
+        os.environ.setdefault(var, "1")
     # the caches are process-global: every case runs in a worker of its own
     # pool slot (fork), cases are independent of each other
     order = sorted(range(len(cases)), key=lambda i: -len(cases[i].get("ops", [])))
@@ -1485,6 +1559,27 @@ def run(run):
 
     run.extra["phase_seconds"] = dict(implementation_pool=round(t1 - t0, 1),
                                       object_caches=round(t2 - t1, 1))
+    # the bytes fed to md5 by the implementation vs. key_new of the model
+    keyitems = []
+    for c, res in by_kind.get("cache", []):
+        if not res.get("keyshim"):
+            run.count("cache:md5-feed-not-observable")
+        for r, fed in res.get("keys", []):
+            keyitems.append((c, r, fed))
+    if keyitems:
+        km = common.coq_map(run.scratch, "c17_key", CACHE_HEADER, "key_flat",
+                            [r for _, r, _ in keyitems], shard=6)
+        for (c, r, fed), m in zip(keyitems, km):
+            run.corr_checked += 1
+            run.count("cache:key-bytes-compared")
+            if m != fed:
+                d = next((i for i, (a, b) in enumerate(zip(m, fed)) if a != b),
+                         min(len(m), len(fed)))
+                run.mismatch(dict(kind="cache-key", call=r[-600:]),
+                             dict(first_difference_at=d, model=m[max(0, d - 8):d + 8],
+                                  length=len(m)),
+                             dict(impl=fed[max(0, d - 8):d + 8], length=len(fed)),
+                             what="key bytes fed to md5")
     for k, items in by_kind.items():
         tk = time.time()
         fn, header = MODEL_FN[k]
@@ -1540,7 +1635,7 @@ def search(run, broken):
     """Proof or correspondence broken, oracle quiet so far: a larger sweep of
     the model-independent oracle on the real code."""
     rng = run.rng
-    n = 400 if run.thorough else 120
+    n = 400 if run.thorough else 60
     gens = [lambda: gen_cache_case(rng, True), lambda: gen_cache_case(rng, True, big=True),
             lambda: gen_public_case(rng), lambda: gen_dsapi_case(rng),
             lambda: gen_hashfile_case(rng, True), lambda: gen_lcl_case(rng, True)]
